@@ -27,7 +27,7 @@ import (
 type c10Value struct {
 	Field string `json:"field"` // degree | base | key | value | meter | bpm | velocity | meta-value | meta-key
 	// the value, in the model's terms
-	Num, Den uint64 `json:",omitempty"`
+	Num, Den uint64           `json:",omitempty"`
 	Interval *theory.Interval `json:"interval,omitempty"`
 	Text     string           `json:"text,omitempty"`
 }
@@ -39,9 +39,9 @@ type c10Pipe struct {
 }
 
 type c10Chord struct {
-	Abs  absChord          `json:"chord"`
-	Vals []timing.Frac     `json:"values"`
-	Meta [][2]string       `json:"meta,omitempty"` // written order
+	Abs  absChord      `json:"chord"`
+	Vals []timing.Frac `json:"values"`
+	Meta [][2]string   `json:"meta,omitempty"` // written order
 }
 
 func init() {
@@ -94,7 +94,7 @@ func c10ValueEval(e *Env, v c10Value) {
 		}
 	}()
 	in := &input.Instance{Values: []note.Value{{Rat: util.Rat{Num: 1, Denom: 1}}}}
-	var want string     // expected printed scalar
+	var want string // expected printed scalar
 	var get func(y yInst) (string, bool)
 	switch v.Field {
 	case "degree":
@@ -316,17 +316,18 @@ func c10PipeEval(e *Env, m *refplay.Model, c *c10Pipe) bool {
 
 func c10WriteConv(e *Env, c *playCase) bool {
 	doc := refplay.YAML(c.Insts)
+	flags := c.Cfg.Flags.Args()
 	e.R.Eval(1)
 	fail := func(class, msg string) bool {
 		c.fill()
 		e.R.Fail(ev.Fail{Class: class, Msg: fmt.Sprintf("%s: %s", c02Durations(c), msg), Kind: "write-conv", Case: c})
 		return false
 	}
-	r := cli.Run(cli.Opt{Stdin: []byte(doc)}, "write", "conv", "-c", "cmt")
+	r := cli.Run(cli.Opt{Stdin: []byte(doc)}, append([]string{"write", "conv", "-c", "cmt"}, flags...)...)
 	if !r.OK() {
 		return fail("C10/write-conv/fails", "write conv -c cmt fails on a valid document: "+firstLine(r.Stderr))
 	}
-	a := implWriteCLI(doc, writeCfg{})
+	a := implWriteCLI(doc, c.Cfg) // the flags resolved by write conv are part of what it prints
 	b := implWriteCLI(string(r.Stdout), writeCfg{})
 	if !a.OK() {
 		return fail("C10/write-conv/harness", "write refuses the original: "+firstLine(a.Stderr))
@@ -442,7 +443,7 @@ func runC10(e *Env) {
 	syms := []string{"", "m7", "7", "dim7", "sus4", "maj9", "6"}
 	bass := []string{"", "3", "5", "b7", "#4"}
 	valsets := [][]timing.Frac{{fr(1, 1)}, {fr(1, 2), fr(1, 3)}, {fr(3, 2)}, {fr(7, 11)}}
-	metas := [][][2]string{nil, {{"bpm", "140"}}, {{"vel", "ff"}}, {{"mtr", "6/8"}}, {{"key", "F#m"}}, {{"txt", "hello world"}}, {{"lic", "la: la #1"}}, {{"mrk", "é♯"}}, {{"key", "Cb"}, {"bpm", "61"}, {"txt", "- x"}, {"vel", "pp"}, {"mtr", "5/4"}}, {{"foo", "bar"}}, {{"txt", "null"}}, {{"txt", "'q'"}}, {{"txt", "\"dq\""}}}
+	metas := [][][2]string{nil, {{"bpm", "140"}}, {{"vel", "ff"}}, {{"mtr", "6/8"}}, {{"key", "F#m"}}, {{"txt", "hello world"}}, {{"lic", "la: la #1"}}, {{"mrk", "é♯"}}, {{"key", "Cb"}, {"bpm", "61"}, {"txt", "- x"}, {"vel", "pp"}, {"mtr", "5/4"}}, {{"foo", "bar"}}, {{"txt", "null"}}, {{"txt", "'q'"}}, {{"txt", "\"dq\""}}, {{"txt", "verse 1: "}}, {{"lic", "la\t"}, {"mrk", "m  "}}, {{"txt", "a  b"}}}
 	var pipes []c10Pipe
 	for _, r := range roots {
 		for _, s := range syms {
@@ -486,13 +487,19 @@ func runC10(e *Env) {
 			wc = append(wc, playCase{Path: "cli", Insts: []refplay.Inst{shapes[i], shapes[j]}})
 		}
 	}
+	fk, fv := "A", "ff"
+	for i := range shapes {
+		for _, fl := range []refplay.Flags{{BPM: up(77)}, {Key: &fk}, {Vel: &fv, Meter: &timing.Frac{Num: 7, Den: 8}}, {BPM: up(61), Key: &fk, Vel: &fv}} {
+			wc = append(wc, playCase{Path: "cli", Insts: []refplay.Inst{shapes[i], shapes[(i+1)%len(shapes)]}, Cfg: writeCfg{Flags: fl}})
+		}
+	}
 	mc.ParFor(len(wc), func(i int) {
 		c := wc[i]
 		c10WriteConv(e, &c)
 		e.R.Trace(1)
 		e.R.NonTrivial(fmt.Sprint("w", i))
 	})
-	e.R.AddPart(ev.Part{Name: "write-conv-roundtrip", Enumerated: "real binary: all documents of length <= 2 over 8 instance shapes: `write conv -c cmt` | `write` vs `write`, decoded, text events aside", Executions: int64(len(wc)), Exhaustive: true})
+	e.R.AddPart(ev.Part{Name: "write-conv-roundtrip", Enumerated: "real binary: all documents of length <= 2 over 8 instance shapes: `write conv -c cmt` | `write` vs `write`, decoded, text events aside; and with 4 flag sets: `write conv FLAGS` | `write` vs `write FLAGS`", Executions: int64(len(wc)), Exhaustive: true})
 	e.R.Sample(map[string]any{"field": "meta-value", "text": "a: b # c"})
 	e.R.Sample(map[string]any{"pipeline": "1[1] 5_7/3[1/2,1/3]{key=Cb,bpm=61,txt=- x,vel=pp,mtr=5/4} 6bmaj7[1]"})
 }
